@@ -140,7 +140,7 @@ private theorem collectStep_no_internal (s : SchemaD) (doc : Doc) (vars : Vars) 
     any well-typed selection set for ANY runtime object type, any `_seen_fragments` set and ANY fuel never takes an
     internal-error branch (`KeyError` of `fragments[name]`, `UnknownType` of `get_type_from_literal`, `CoercionError`
     of `_skip_selection`). These are exactly the crash sites behind finding V1 once validation lets a document through. -/
-theorem validated_no_internal_error_partial (s : SchemaD) (doc : Doc) (vars : Vars) (hf : fragsOk s doc vars = true) :
+theorem collect_no_internal_error (s : SchemaD) (doc : Doc) (vars : Vars) (hf : fragsOk s doc vars = true) :
     ∀ (fuel : Nat) (obj T : String) (sels : List Sel) (seen : List String), selsOk s doc vars T sels = true →
       NoInternal (collectFields s doc vars fuel obj sels seen) := by
   intro fuel
@@ -335,13 +335,8 @@ theorem validated_shape_field (s : SchemaD) (doc : Doc) (vars : Vars) (w : World
       · simp at h
       · exact validated_shape s _ (fun rt p sels d es hh => executeFields_isObj s doc vars w cf n rt p sels d es hh) _ _ _ _ _ _ h
 
-/-- Full statement of C05's soundness (kept visible). Proved parts: `validated_no_internal_error_partial` (every
-    internal-error site of `collect_fields`), `validated_shape` / `validated_shape_field` (shape at every position,
-    unconditionally), `C04.alias_merge` + `C04.keys_document_order` (one value per response key). Missing: the
-    induction through `execute_fields` showing that under `ValidDoc`, `KeyConsistent`, a schema whose objects
-    implement their interfaces covariantly and a typed world, `complete_value`'s `RuntimeError`/`TypeError`
-    branches and `resolve_type`'s `UnknownType` are unreachable; the correspondence checks exactly this implication
-    on the real pipeline and on the model for every validator-accepted document. -/
+/-- Statement of C05's soundness at request level. It is PROVED in full in `Props/C05_exec.lean`
+    (`validated_no_internal_error`), with the typing side-conditions made precise there (`SchemaOk`, `WorldTyped`). -/
 def ValidatedNoInternalError (s : SchemaD) (doc : Doc) (vars : Vars) (w : World) (typed : Prop) : Prop :=
   ValidDoc s doc vars → keyConsistentB doc = true → typed →
     ∀ op fuel cf cls, execute s doc vars w op fuel cf ≠ .failed (.internal cls)
